@@ -108,7 +108,7 @@ func TestVerifC03(t *testing.T) {
 	rng := verifRand("c03")
 	verifInstallFakeSTS()
 	env, err := verifNewEnv(verifStateOpts{Name: "c03", Users: map[string]string{"alice": "alice-pw-1", "root1": "root1-pw"},
-		AllowedCerts: []string{"password", "U2F", "IPCertificate"}, AllowedWebUI: []string{"password"},
+		AllowedCerts: []string{"password", "U2F", "IPCertificate", "WebauthForCLI"}, AllowedWebUI: []string{"password"}, CLILifetime: "720h",
 		AdminUsers: []string{"root1"}, AutomationUsers: []string{"autobot"}, ClientCA: true, Ed25519: true,
 		ExtraTop: "aws_certs:\n    allowed_accounts: [\"123456789012\"]\n"})
 	if err != nil {
@@ -163,6 +163,15 @@ func TestVerifC03(t *testing.T) {
 				}})
 			}
 		}
+	}
+	// long-lived CLI sessions (webauth_token_for_cli_lifetime = 30 days): the session outlives 16 h by design, the
+	// certificates it yields are still bounded by the time it was authenticated
+	for _, age := range []time.Duration{time.Hour, 20 * time.Hour, 23*time.Hour + 50*time.Minute} {
+		iat := now.Add(-age)
+		tok := verifMint(verifSessionClaims("alice", verifBit["WebauthForCLI"], iat, 720*time.Hour), ca)
+		creds = append(creds, cred{fmt.Sprintf("cli-session-age-%s", age), iat, func(q *verifReq) {
+			q.Cookies = map[string]string{"auth_cookie": tok}
+		}})
 	}
 	creds = append(creds, cred{"basic", time.Time{}, func(q *verifReq) { q.UseBasic = true; q.BasicUser = "alice"; q.BasicPass = "alice-pw-1" }})
 	for _, age := range []time.Duration{time.Minute, 12 * time.Hour, 23*time.Hour + 58*time.Minute} {
